@@ -13,6 +13,7 @@ package main
 //      [2 u w] UpsertServer(universe[u], Weight(w)) -> obs [len(Servers())]; w = 0 on an existing member drains it (it stays a
 //              member: its cookies keep pinning, NextServer never picks it); on a new server Weight(0) means the default weight
 //      [3 u]   RemoveServer(universe[u])            -> obs [len(Servers())]
+//      [2 u w 1] / [3 u 1]: the same calls without the Servers() call afterwards -> obs []
 //      [4 d]   clock.Advance(d ns)                  -> obs []
 // facts (tag a b r) are the results of the library functions the Coq model does not implement, recorded from the
 // real library on the arguments of this case (see coq/Model/Sticky.v): url.Parse, URL.String, fnv1a, AES-GCM+base64,
@@ -373,7 +374,7 @@ func (c *stickyComp) Gen(rng *rand.Rand, idx int, tier string, targeted bool) hl
 		return -1
 	}
 	upsert := func(u int, w int64) {
-		h.Ops = append(h.Ops, []int64{2, int64(u), w})
+		h.Ops = append(h.Ops, []int64{2, int64(u), w, int64(rng.Intn(2))}) // every other change is not followed by a Servers() call
 		if i := gfind(u); i >= 0 {
 			gpool[i].w = w
 		} else {
@@ -384,7 +385,7 @@ func (c *stickyComp) Gen(rng *rand.Rand, idx int, tier string, targeted bool) hl
 		}
 	}
 	remove := func(u int) {
-		h.Ops = append(h.Ops, []int64{3, int64(u)})
+		h.Ops = append(h.Ops, []int64{3, int64(u), int64(rng.Intn(2))})
 		if i := gfind(u); i >= 0 {
 			gpool = append(gpool[:i], gpool[i+1:]...)
 		}
@@ -620,7 +621,7 @@ func (c *stickyComp) Run(h *hlib.History) (mons []hlib.Mon, ok bool) {
 			fmt.Fprintln(os.Stderr, "op", step, op[:min(len(op), 4)])
 		}
 		switch {
-		case len(op) == 3 && op[0] == 2:
+		case (len(op) == 3 || len(op) == 4) && op[0] == 2:
 			u, w := int(op[1]), int(op[2])
 			if u < 0 || u >= len(universe) || w < 0 || w > 100 {
 				return nil, false
@@ -642,9 +643,13 @@ func (c *stickyComp) Run(h *hlib.History) (mons []hlib.Mon, ok bool) {
 				}
 			}
 			sim.reset()
-			h.Obs = append(h.Obs, []int64{int64(len(lb.Servers()))})
+			if len(op) == 4 && op[3] != 0 {
+				h.Obs = append(h.Obs, []int64{})
+			} else {
+				h.Obs = append(h.Obs, []int64{int64(len(lb.Servers()))})
+			}
 			note(fmt.Sprintf("Upsert(%s, w=%d)", universe[u], w))
-		case len(op) == 2 && op[0] == 3:
+		case (len(op) == 2 || len(op) == 3) && op[0] == 3:
 			u := int(op[1])
 			if u < 0 || u >= len(universe) {
 				return nil, false
@@ -661,7 +666,11 @@ func (c *stickyComp) Run(h *hlib.History) (mons []hlib.Mon, ok bool) {
 				}
 				sim.reset()
 			}
-			h.Obs = append(h.Obs, []int64{int64(len(lb.Servers()))})
+			if len(op) == 3 && op[2] != 0 {
+				h.Obs = append(h.Obs, []int64{})
+			} else {
+				h.Obs = append(h.Obs, []int64{int64(len(lb.Servers()))})
+			}
 			note(fmt.Sprintf("Remove(%s)", universe[u]))
 		case len(op) == 2 && op[0] == 4:
 			if op[1] < 0 || op[1] > 1e12 {
